@@ -343,6 +343,10 @@ def exh_cases(seed, chunk, nchunks, tier):
 
 
 def run(ctx):
+    from .. import tie
+
+    # translation tie: Lean definitions regenerated from /repo's source + equality theorems with the model
+    ctx.tie = tie.run_tie(ctx, tie.FUNCTIONS["C03"])
     n = 8000 if ctx.tier == "quick" else 60000
     stream.run_stream(ctx, "graded", "harness.props.c03", "gen_cases", n, per_chunk=80,
                       canon_kw=dict(drop_zero=True))
